@@ -795,8 +795,22 @@ pub fn parse_identifier(yaml: &Yaml) -> crate::Result<Expression> {
     }
 }
 
-// TODO: Extract common code and try to make this function a little bit more readable
+// Parses an identifier whose entries are counted by all() / of() in the condition. When a single
+// key with a list is all there is to the identifier the members of the list are its entries, so
+// they are kept as searches of their own instead of being batched by kind.
+pub(crate) fn parse_counted_identifier(yaml: &Yaml) -> crate::Result<Expression> {
+    match yaml {
+        Yaml::Mapping(m) if m.len() == 1 => parse_mapping_with(m, true),
+        _ => parse_identifier(yaml),
+    }
+}
+
 fn parse_mapping(mapping: &Mapping) -> crate::Result<Expression> {
+    parse_mapping_with(mapping, false)
+}
+
+// TODO: Extract common code and try to make this function a little bit more readable
+fn parse_mapping_with(mapping: &Mapping, members: bool) -> crate::Result<Expression> {
     let mut expressions = vec![];
     for (k, v) in mapping {
         let mut misc: Option<ModSym> = None;
@@ -1467,7 +1481,10 @@ fn parse_mapping(mapping: &Mapping) -> crate::Result<Expression> {
                     + !ineedles.is_empty() as usize
                     + !regex_set.is_empty() as usize
                     + !iregex_set.is_empty() as usize;
-                if matches!(&e, Expression::Match(_, _)) && entries > 1 {
+                if match &e {
+                    Expression::Match(_, _) => entries > 1,
+                    _ => members,
+                } {
                     needles.clear();
                     for m in context.drain(..) {
                         let s = match m {
